@@ -266,6 +266,13 @@ class TimeCachingAdapter(Adapter, NoBranchAdapter, ABC):
         self._clear_cached_data(time)
         return data
 
+    def _unpack(self, where):
+        if isinstance(where, str):
+            # buffered data was pulled from the source, so it carries the input units
+            data = super()._unpack(where)
+            return dtools.UNITS.Quantity(data.magnitude, self._input_info.units)
+        return where
+
     def _finalize(self):
         # remove the files of buffered data that was dumped to disk
         for _t, d in self.data:
